@@ -380,6 +380,10 @@ class Core(composites.Composite):
         if discharge and self._trackAssems:
             if self.parent.excore.get("sfp") is not None:
                 self.parent.excore.sfp.add(a1)
+                # A tracked assembly stays in the lookup tables. Make sure that holds for blocks it
+                # was handed on its way out (e.g. stationary blocks of a fresh assembly).
+                for b in a1:
+                    self.blocksByName[b.getName()] = b
             else:
                 runLog.info("No Spent Fuel Pool is found, can't track assemblies.")
         else:
